@@ -1,32 +1,106 @@
 (* C07 — executable glue for the harness-generated correspondence cases (no proofs):
-   concrete conversions, decidable equality of outcomes, per-run check. *)
-From Coq Require Import List String ZArith Bool Arith.
-From Verif Require Import Bind.
+   concrete conversions (with their failures), alias resolution through the translated kernel K4,
+   decidable equality of outcomes, per-run check. *)
+From Coq Require Import List String Ascii ZArith NArith Bool Arith.
+From Verif Require Import Bind PyK PyK_alias.
+From VerifGen Require K4.
 Import ListNotations.
 Open Scope string_scope.
-Open Scope list_scope.
 
-Inductive ckind := CId | CInt | CFloat | CStr | CList | CBool.
+Inductive ckind := CId | CInt | CFloat | CStr | CList | CBool | CDec | CTd | CTup | CEnum.
 
-Definition conv_k (k: ckind) (v: pv) : pv :=
-  match k, v with
-  | CId, v => v
-  | CInt, PInt z => PInt z            (* int(3) *)
-  | CInt, PFloat z => PInt z          (* int(3.0) *)
-  | CInt, PBool b => PInt (if b then 1 else 0)%Z      (* int(True) *)
-  | CFloat, PInt z => PFloat z        (* float(3) *)
-  | CFloat, PFloat z => PFloat z
-  | CFloat, PBool b => PFloat (if b then 1 else 0)%Z
-  | CBool, PBool b => PBool b         (* bool(value) *)
-  | CBool, PInt z => PBool (negb (Z.eqb z 0))
-  | CBool, PFloat z => PBool (negb (Z.eqb z 0))
-  | CStr, PStr s => PStr s
-  | CList, PList l => PList l         (* [int(value) for value in value] on ints *)
-  | _, _ => PStr "<outside the generated value domain>"
+(* ---------- str() of the basic values ---------- *)
+Fixpoint digits (fuel: nat) (n: N) : string :=
+  match fuel with
+  | O => ""
+  | S f => let q := N.div n 10 in
+           (if N.eqb q 0 then "" else digits f q) ++ String (ascii_of_N (48 + N.modulo n 10)) ""
+  end.
+Definition str_Z (z: Z) : string :=
+  let n := Z.abs_N z in
+  (if Z.ltb z 0 then "-" else "") ++ digits (S (N.size_nat n)) n.
+Fixpoint join_Z (l: list Z) : string :=
+  match l with
+  | [] => ""
+  | [x] => str_Z x
+  | x :: r => str_Z x ++ ", " ++ join_Z r
+  end.
+Definition py_str (v: pv) : option string :=
+  match v with
+  | PNone => Some "None"
+  | PBool b => Some (if b then "True" else "False")
+  | PInt z => Some (str_Z z)
+  | PFloat z => Some (str_Z z ++ ".0")
+  | PStr s => Some s
+  | PList l => Some ("[" ++ join_Z l ++ "]")
+  | _ => None
   end.
 
-Definition conv_of (ks: list (string * ckind)) (f: string) (v: pv) : pv :=
-  match lookup f ks with Some k => conv_k k v | None => v end.
+(* the decimal literals the generator emits: optional minus, 0 or a number without leading zero, optional fraction *)
+Definition is_digit (c: ascii) : bool := let n := nat_of_ascii c in (48 <=? n)%nat && (n <=? 57)%nat.
+Fixpoint all_digits (s: string) : bool :=
+  match s with EmptyString => true | String c r => is_digit c && all_digits r end.
+Fixpoint frac_ok (s: string) : bool :=        (* after the integer part: "" or "." digits+ *)
+  match s with
+  | EmptyString => true
+  | String "." r => negb (String.eqb r "") && all_digits r
+  | _ => false
+  end.
+Fixpoint int_then_frac (s: string) : bool :=
+  match s with
+  | EmptyString => true
+  | String c r => if is_digit c then int_then_frac r else frac_ok s
+  end.
+Definition simple_dec (s: string) : bool :=
+  let body := match s with String "-" r => r | _ => s end in
+  match body with
+  | EmptyString => false
+  | String "0" r => frac_ok r
+  | String c r => is_digit c && int_then_frac r
+  end.
+
+Open Scope list_scope.
+
+Definition bool_Z (b: bool) : Z := if b then 1%Z else 0%Z.
+Definition in_color (z: Z) : bool := (Z.leb 0 z && Z.leb z 2)%bool.     (* class Color(IntEnum): ZERO ONE TWO *)
+
+(* the unpacker expressions of the generated field types on the generated value domain; None = it raises.
+   Strings handed to int()/float() by the generator never parse as numbers (they contain a letter or are
+   empty); iterating a non-empty such string therefore fails at its first character. *)
+Definition conv_k (k: ckind) (v: pv) : option pv :=
+  match k, v with
+  | CId, v => Some v
+  | CInt, PInt z => Some (PInt z)                 (* int(3) *)
+  | CInt, PFloat z => Some (PInt z)               (* int(3.0) *)
+  | CInt, PBool b => Some (PInt (bool_Z b))       (* int(True) *)
+  | CFloat, PInt z => Some (PFloat z)             (* float(3) *)
+  | CFloat, PFloat z => Some (PFloat z)
+  | CFloat, PBool b => Some (PFloat (bool_Z b))
+  | CBool, PNone => Some (PBool false)            (* bool(value) never raises *)
+  | CBool, PBool b => Some (PBool b)
+  | CBool, PInt z => Some (PBool (negb (Z.eqb z 0)))
+  | CBool, PFloat z => Some (PBool (negb (Z.eqb z 0)))
+  | CBool, PStr s => Some (PBool (negb (String.eqb s "")))
+  | CBool, PList l => Some (PBool (match l with [] => false | _ => true end))
+  | CStr, v => option_map PStr (py_str v)         (* str(value) never raises *)
+  | CList, PList l => Some (PList l)              (* [int(value) for value in value] *)
+  | CList, PStr s => if String.eqb s "" then Some (PList []) else None
+  | CTup, PList l => Some (PTup l)                (* tuple([int(value) for value in value]) *)
+  | CTup, PStr s => if String.eqb s "" then Some (PTup []) else None
+  | CDec, PInt z => Some (PDec (str_Z z))         (* Decimal(3) *)
+  | CDec, PFloat z => Some (PDec (str_Z z))       (* Decimal(3.0) *)
+  | CDec, PStr s => if simple_dec s then Some (PDec s) else None
+  | CTd, PInt z => Some (PTd z)                   (* timedelta(seconds=value) *)
+  | CTd, PFloat z => Some (PTd z)
+  | CTd, PBool b => Some (PTd (bool_Z b))
+  | CEnum, PInt z => if in_color z then Some (PEnum z) else None     (* Color(value) *)
+  | CEnum, PFloat z => if in_color z then Some (PEnum z) else None
+  | CEnum, PBool b => Some (PEnum (bool_Z b))
+  | _, _ => None                                  (* TypeError / ValueError / InvalidOperation *)
+  end.
+
+Definition conv_of (ks: list (string * ckind)) (f: string) (v: pv) : option pv :=
+  match lookup f ks with Some k => conv_k k v | None => Some v end.
 
 Fixpoint zlist_eqb (a b: list Z) : bool :=
   match a, b with
@@ -43,6 +117,10 @@ Definition pv_eqb (a b: pv) : bool :=
   | PFloat x, PFloat y => Z.eqb x y
   | PStr x, PStr y => String.eqb x y
   | PList x, PList y => zlist_eqb x y
+  | PDec x, PDec y => String.eqb x y
+  | PTd x, PTd y => Z.eqb x y
+  | PTup x, PTup y => zlist_eqb x y
+  | PEnum x, PEnum y => Z.eqb x y
   | PFresh x, PFresh y => Nat.eqb x y
   | _, _ => false
   end.
@@ -82,42 +160,100 @@ Definition strip (a: list (string * option pv)) : list (string * option pv) :=
 (* what the real implementation did on one input, two calls in a row *)
 Inductive rout :=
 | RMissing (f: string)
+| RInvalid (f: string)
 | RTypeError
 | ROther
 | ROk (a1: list (string * option pv)) (labels2: list nat).
 
+(* ---------- alias resolution by the translated kernel (builder.py __get_field_alias) ---------- *)
+(* the three places an alias can come from, as the harness found them on the real class *)
+Record asrc := {
+  as_meta : option string;          (* Field.metadata.get("alias") *)
+  as_annotated : list string;       (* names of the Alias(...) annotations of Annotated[T, ...], in order *)
+  as_is_annotated : bool;           (* the type hint is Annotated *)
+  as_config : option string         (* Config.aliases.get(field name) *)
+}.
+Definition no_alias : asrc := {| as_meta := None; as_annotated := []; as_is_annotated := false; as_config := None |}.
+
+Definition kopt (o: option string) : kv := match o with Some s => KStr s | None => KNone end.
+Definition alias_ns (n: string) : kv := KNs [("__class__", KStr "Alias"); ("name", KStr n)].
+
+Definition resolve_alias (fname: string) (a: asrc) : option (option string) :=
+  match K4.get_field_alias (KStr fname)
+          (KDict (match as_meta a with Some s => [(KStr "alias", KStr s)] | None => [] end))
+          (KBool (as_is_annotated a))
+          (KList (map alias_ns (as_annotated a)))
+          (KDict (match as_config a with Some s => [(KStr fname, KStr s)] | None => [] end)) with
+  | Ok (KStr s) => Some (Some s)
+  | Ok KNone => Some None
+  | _ => None
+  end.
+
+(* builder.py 240-243: `for ancestor in cls.__mro__[-1:0:-1]: if is_dataclass(ancestor): for field in
+   ancestor.__dataclass_fields__.values(): d[field.name] = field` - later ancestors overwrite earlier ones *)
+Definition anc_of (tables: list (list (string * bfield))) (n: string) : option bfield :=
+  fold_left (fun acc t => match lookup n t with Some b => Some b | None => acc end) tables None.
+
 Record lay := {
-  ly_L : layout;
+  ly_L : layout;                 (* m_alias and m_anc of the members are filled in by [resolved] *)
+  ly_asrc : list (string * asrc);
+  ly_anc : list (list (string * bfield));   (* __dataclass_fields__ of the dataclass ancestors, in cls.__mro__[-1:0:-1] order *)
   ly_kinds : list (string * ckind);
   ly_nba : bool;                (* Config.allow_deserialization_not_by_alias *)
   ly_sigpos : list string;      (* inspect.signature(cls.__init__): positional-or-keyword names *)
   ly_sigkw : list string        (* keyword-only names *)
 }.
 
+Definition set_alias (anc: option bfield) (a: option string) (m: member) : member :=
+  Build_member (m_name m) (m_kind m) (m_field m) (m_param m) (m_kw m) (m_def m) anc (m_own m)
+               (m_ns m) (m_df m) (m_nullty m) (m_ident m) a (m_unull m).
+
+(* the layout with every alias computed by K4; None when the kernel fails *)
+Fixpoint resolved_list (srcs: list (string * asrc)) (tables: list (list (string * bfield))) (L: layout) : option layout :=
+  match L with
+  | [] => Some []
+  | m :: r =>
+    let a := match lookup (m_name m) srcs with Some a => a | None => no_alias end in
+    match (if match m_kind m with KNormal => true | _ => false end
+           then resolve_alias (m_name m) a else Some None), resolved_list srcs tables r with
+    | Some al, Some r' => Some (set_alias (anc_of tables (m_name m)) al m :: r')
+    | _, _ => None
+    end
+  end.
+Definition resolved (y: lay) : option layout := resolved_list (ly_asrc y) (ly_anc y) (ly_L y).
+
 (* the model's signature of __init__ equals the real one, and the layout is in the domain *)
 Definition lay_ok (y: lay) : bool :=
-  layout_ok (ly_L y)
-  && strs_eqb (map m_name (pos_params (ly_L y))) (ly_sigpos y)
-  && strs_eqb (map m_name (filter (fun m => m_param m && m_kw m) (ly_L y))) (ly_sigkw y).
+  match resolved y with
+  | None => false
+  | Some L =>
+    layout_ok L
+    && strs_eqb (map m_name (pos_params L)) (ly_sigpos y)
+    && strs_eqb (map m_name (filter (fun m => m_param m && m_kw m) L)) (ly_sigkw y)
+  end.
 
 Definition run_ok (y: lay) (d: inp) (r: rout) : bool :=
   let cv := conv_of (ly_kinds y) in
-  match decode cv (ly_nba y) true (ly_L y) d 0, r with
-  | OMissing f, RMissing g => String.eqb f g
-  | OTypeError, RTypeError => true
-  | OOk a1 c1, ROk e1 l2 =>
-      attrs_eqb a1 e1 &&
-      match decode cv (ly_nba y) false (ly_L y) d 0 with OOk b1 _ => attrs_eqb b1 e1 | _ => false end &&
-      match decode cv (ly_nba y) true (ly_L y) d c1 with
-      | OOk a2 _ => nats_eqb (labels a2) l2 && attrs_eqb (strip a2) (strip a1)
-      | _ => false
-      end
-  | _, _ => false
+  match resolved y with
+  | None => false
+  | Some L =>
+    match decode cv (ly_nba y) true L d 0, r with
+    | OMissing f, RMissing g => String.eqb f g
+    | OInvalid f, RInvalid g => String.eqb f g
+    | OTypeError, RTypeError => true
+    | OOk a1 c1, ROk e1 l2 =>
+        attrs_eqb a1 e1 &&
+        match decode cv (ly_nba y) false L d 0 with OOk b1 _ => attrs_eqb b1 e1 | _ => false end &&
+        match decode cv (ly_nba y) true L d c1 with
+        | OOk a2 _ => nats_eqb (labels a2) l2 && attrs_eqb (strip a2) (strip a1)
+        | _ => false
+        end
+    | _, _ => false
+    end
   end.
 
-(* flags returned to the harness: 0 = agree, 1 = model and implementation differ, 2 = layout not in domain /
-   signature differs *)
-Definition dummy_lay : lay := {| ly_L := []; ly_kinds := []; ly_nba := false; ly_sigpos := []; ly_sigkw := [] |}.
+Definition dummy_lay : lay :=
+  {| ly_L := []; ly_asrc := []; ly_anc := []; ly_kinds := []; ly_nba := false; ly_sigpos := []; ly_sigkw := [] |}.
 
 Definition case_ok (lays: list lay) (c: nat * inp * rout) : bool :=
   match c with (i, d, r) =>
@@ -129,14 +265,20 @@ Definition ref_agrees (lays: list lay) (c: nat * inp * rout) : bool :=
   match c with (i, d, _) =>
     let y := nth i lays dummy_lay in
     let cv := conv_of (ly_kinds y) in
-    match decode cv (ly_nba y) true (ly_L y) d 0, ref_decode cv (ly_nba y) (ly_L y) d 0 with
-    | OMissing f, OMissing g => String.eqb f g
-    | OTypeError, OTypeError => true
-    | OOk a1 c1, OOk a2 c2 => attrs_eqb a1 a2 && Nat.eqb c1 c2
-    | _, _ => false
+    match resolved y with
+    | None => false
+    | Some L =>
+      match decode cv (ly_nba y) true L d 0, ref_decode cv (ly_nba y) L d 0 with
+      | OMissing f, OMissing g => String.eqb f g
+      | OInvalid f, OInvalid g => String.eqb f g
+      | OTypeError, OTypeError => true
+      | OOk a1 c1, OOk a2 c2 => attrs_eqb a1 a2 && Nat.eqb c1 c2
+      | _, _ => false
+      end
     end
   end.
 
-Definition mkm n k fld par kw df anc own ns dff nul idt ali unl : member :=
-  Build_member n k fld par kw df anc own ns dff nul idt ali unl.
+Definition mkm n k fld par kw df own ns dff nul idt unl : member :=
+  Build_member n k fld par kw df None own ns dff nul idt None unl.
 Definition bf d i k : bfield := Build_bfield d i k.
+Definition asr m an ia c : asrc := Build_asrc m an ia c.
